@@ -403,6 +403,11 @@ func (r *c35Run) peerLoop() {
 				}
 			}
 		case mx.MsgPong:
+			if len(p) == 7 && p[5] == 'w' && int(p[6]) < len(r.chans) {
+				c := r.chans[p[6]]
+				c.usedOnce.Do(func() { close(c.usedAll) })
+				continue
+			}
 			select {
 			case r.pong <- struct{}{}:
 			default:
@@ -419,7 +424,6 @@ func (r *c35Run) peerSend(c *c35Peer, code uint32, seed uint32, n int) bool {
 	for n > 0 {
 		c.smu.Lock()
 		for c.sendWin == 0 && !c.sdead {
-			c.usedOnce.Do(func() { close(c.usedAll) })
 			c.scond.Wait()
 		}
 		if c.sdead {
@@ -437,9 +441,7 @@ func (r *c35Run) peerSend(c *c35Peer, code uint32, seed uint32, n int) bool {
 			k = int(c.goMaxPkt)
 		}
 		c.sendWin -= uint64(k)
-		if c.sendWin == 0 {
-			c.usedOnce.Do(func() { close(c.usedAll) })
-		}
+		exhausted := c.sendWin == 0
 		c.smu.Unlock()
 		b := make([]byte, k)
 		mx.Fill(b, seed, off)
@@ -451,6 +453,11 @@ func (r *c35Run) peerSend(c *c35Peer, code uint32, seed uint32, n int) bool {
 		}
 		if err != nil {
 			return false
+		}
+		if exhausted {
+			// the whole window is spent; the pong tells when the Go side has accounted all of
+			// it, only then may a delayed reader start (see peerLoop)
+			r.s.Peer.WritePacket(mx.Ping([]byte{'w', byte(c.idx)}))
 		}
 		off += uint64(k)
 		n -= k
@@ -644,6 +651,7 @@ func runC35Refpeer(p *c35Plan) (string, c35Stats, error) {
 				case <-pc.usedAll:
 				case <-r.violCh:
 					return
+				case <-r.errCh:
 				}
 			}
 			buf := make([]byte, pl.ReadBuf)
